@@ -34,6 +34,12 @@ def relation_values(master, slave):
     if rel['type'] == 'gear':
         return slave['z'] / master['z'], rel['eff'], False
     f = rel['f']
+    if rel.get('f_is_threshold'):
+        # the friction coefficient IS the threshold, computed by the user from the worm's own angle objects
+        # (pressure_angle.cos() * helix_angle.tan()): the documented condition is strict, so the mating is not self-locking
+        if master['type'] == 'wormgear':
+            return slave['z'] / master['n_starts'], worm_efficiency(qsi(master['pa']), qsi(master['helix']), f, True), False
+        return slave['n_starts'] / master['z'], worm_efficiency(qsi(master['pa']), qsi(master['helix']), f, False), False
     if master['type'] == 'wormgear':
         a, b = qsi(master['pa']), qsi(master['helix'])
         r = slave['z'] / master['n_starts']
